@@ -251,8 +251,12 @@ class PathWalker:
             yield from self.wloop(s, st, 0)
             return
         if isinstance(s, ast.Return):
-            self.h.on_return(st, s)
-            yield st, "return", s
+            res = self.h.on_return(st, s)
+            if res is None:
+                yield st, "return", s
+            else:
+                for st2, kind in res:
+                    yield st2, ("return" if kind == "next" else kind), s
             return
         if isinstance(s, ast.Raise):
             self.h.on_raise(st, s)
